@@ -245,6 +245,26 @@ pub fn build(p: &P) -> Cmd {
             *slot.lock().unwrap() = Some(Box::new(move || h.abort()));
             cmd
         }
+        P::SpawnThenSelfAbort(s, m) => {
+            let slot: std::sync::Arc<std::sync::Mutex<Option<Box<dyn Fn() + Send>>>> = Default::default();
+            let slot2 = slot.clone();
+            let cmd = Command::new(move |ctx| async move {
+                let v = areq(&ctx, s, 0).await;
+                ctx.spawn(move |ctx| async move {
+                    if is_b(m.label) {
+                        ctx.notify_shell(OpB::make(m.label, v));
+                    } else {
+                        ctx.notify_shell(OpA::make(m.label, v));
+                    }
+                });
+                if let Some(abort) = slot2.lock().unwrap().as_ref() {
+                    abort();
+                }
+            });
+            let h = cmd.abort_handle();
+            *slot.lock().unwrap() = Some(Box::new(move || h.abort()));
+            cmd
+        }
         P::QuietSelfAbort(s) => {
             let slot: std::sync::Arc<std::sync::Mutex<Option<Box<dyn Fn() + Send>>>> = Default::default();
             let slot2 = slot.clone();
